@@ -33,8 +33,10 @@ inline bool on = false;
 inline void* live[1 << 14];
 inline int n = 0;
 inline long overflow = 0;
-inline void add(void* p) { if (!on) return; if (n < (1 << 14)) live[n++] = p; else ++overflow; }
-inline void del(void* p) { for (int i = n - 1; i >= 0; --i) if (live[i] == p) { live[i] = live[--n]; return; } }
+inline std::atomic_flag lk = ATOMIC_FLAG_INIT;     // threads of the controlled-thread mode exit concurrently
+struct Guard { Guard() { while (lk.test_and_set(std::memory_order_acquire)) {} } ~Guard() { lk.clear(std::memory_order_release); } };
+inline void add(void* p) { if (!on) return; Guard g; if (n < (1 << 14)) live[n++] = p; else ++overflow; }
+inline void del(void* p) { Guard g; for (int i = n - 1; i >= 0; --i) if (live[i] == p) { live[i] = live[--n]; return; } }
 }  // namespace heapacct
 
 namespace coro_h {
@@ -42,6 +44,8 @@ using Payload = std::vector<int>;
 struct Tagged { Payload p; };          // the only exception type the harness throws
 
 struct World;
+struct Cur { char k = '-'; int n = 0; };
+inline thread_local Cur tl_cur;
 
 // ---------------------------------------------------------------- object tracking
 struct Track {
@@ -67,11 +71,11 @@ struct World {
   std::vector<Ev> obs;                     // ordered observations
   std::set<int> seen;                      // leaves whose stop callback ran
   std::map<int, std::deque<SchedItem>> ctxq;
-  char curk = '-'; int curn = 0;
+  Cur& cur() const { return tl_cur; }      // context tag of the calling thread (controlled-thread mode: one per thread)
   unifex::inplace_stop_source src; int regs = 0;
   int rootCount = 0;
   std::function<void()> destroyOp;
-  void note(const char* e, int k, int a, Payload p = {}) { obs.push_back(Ev{e, k, a, std::move(p), curk, curn}); }
+  void note(const char* e, int k, int a, Payload p = {}) { obs.push_back(Ev{e, k, a, std::move(p), tl_cur.k, tl_cur.n}); }
 };
 
 // ---------------------------------------------------------------- tracked value (provenance payload)
@@ -180,7 +184,9 @@ template <class R> struct LeafOp {
     c->started = true; c->completed = false; running = true;
     w->seen.erase(c->id);
     w->note("LeafStart", c->id, stopped ? 1 : 0);
-    vrt::ev("{\"e\":\"LeafStart\",\"l\":%d,\"stopped\":%d,\"aw\":0}", c->id, stopped ? 1 : 0);
+    bool stoppable = false;      // aw: 0 = leaf sender with a live stop token, 1 = awaitable leaf, 2 = leaf sender whose token can never stop
+    if constexpr (!unifex::is_stop_never_possible_v<ST>) stoppable = unifex::get_stop_token(r).stop_possible();
+    vrt::ev("{\"e\":\"LeafStart\",\"l\":%d,\"stopped\":%d,\"aw\":%d}", c->id, stopped ? 1 : 0, stoppable ? 0 : 2);
     c->complete = [this](char ch) { finish(ch); };
     LeafCtl* cc = c;        // our own completion may destroy this operation state
     constructing = true;
@@ -249,7 +255,7 @@ struct Recv {
   void done(char ch, Payload p) noexcept {
     World* ww = w;
     ++ww->rootCount;
-    vrt::ev("{\"e\":\"RootComplete\",\"ch\":\"%c\",\"p\":%s,\"ck\":\"%c\",\"cn\":%d,\"regs\":%d}", ch, pj(p).c_str(), ww->curk, ww->curn, ww->regs);
+    vrt::ev("{\"e\":\"RootComplete\",\"ch\":\"%c\",\"p\":%s,\"ck\":\"%c\",\"cn\":%d,\"regs\":%d}", ch, pj(p).c_str(), ww->cur().k, ww->cur().n, ww->regs);
     ww->note(ch == 'v' ? "RootValue" : ch == 'e' ? "RootError" : "RootDone", 0, 0, std::move(p));
     if (ww->destroyOp) { auto d = std::move(ww->destroyOp); ww->destroyOp = nullptr; d(); }
   }
@@ -264,6 +270,7 @@ struct Recv {
 // Statement kinds (a, b = integer arguments):
 //   'L' a      declare tracked local a
 //   'X' a      register cleanup action a with at_coroutine_exit (the action is a small task that logs its id)
+//   'Y' a l    register cleanup action a that itself co_awaits leaf sender l (the action suspends)
 //   'A' i b    co_await leaf sender i; b=1: catch its exception and continue (b=0: log and rethrow)
 //   'N' i b    co_await as_sender(awaitable leaf i)          (awaitable -> sender -> awaitable round trip)
 //   'M' i b    co_await awaitable leaf i                     (await_transform of a natural awaitable)
@@ -277,22 +284,31 @@ struct Recv {
 inline unifex::task<Val> run(World& w, int k, FrameTag);
 
 inline unifex::task<void> cleanup_action(World* w, int k, int a, FrameTag) {
-  vrt::ev("{\"e\":\"Cleanup\",\"k\":%d,\"a\":%d," CTXF "}", k, a, w->curk, w->curn);
+  vrt::ev("{\"e\":\"Cleanup\",\"k\":%d,\"a\":%d," CTXF "}", k, a, w->cur().k, w->cur().n);
+  w->note("Cleanup", k, a);
+  co_return;
+}
+
+inline unifex::task<void> cleanup_action_await(World* w, int k, int a, int l, FrameTag) {
+  vrt::ev("{\"e\":\"CleanupBegin\",\"k\":%d,\"a\":%d," CTXF "}", k, a, w->cur().k, w->cur().n);
+  w->note("CleanupBegin", k, a);
+  { Val v = co_await Leaf(w, l); (void)v; }
+  vrt::ev("{\"e\":\"Cleanup\",\"k\":%d,\"a\":%d," CTXF "}", k, a, w->cur().k, w->cur().n);
   w->note("Cleanup", k, a);
   co_return;
 }
 
 inline unifex::task<Val> run(World& w, int k, FrameTag) {
-  vrt::ev("{\"e\":\"Body\",\"k\":%d," CTXF "}", k, w.curk, w.curn);
+  vrt::ev("{\"e\":\"Body\",\"k\":%d," CTXF "}", k, w.cur().k, w.cur().n);
   w.note("Body", k, 0);
   std::vector<std::unique_ptr<Local>> locals;
   struct Rev { std::vector<std::unique_ptr<Local>>& l; ~Rev() { while (!l.empty()) l.pop_back(); } } rev{locals};   // reverse order of declaration
   auto gotValue = [&](const char* e, const Stmt& s, const Payload& p) {
-    vrt::ev("{\"e\":\"%s\",\"k\":%d,\"n\":%d,\"p\":%s," CTXF "}", e, k, s.a, pj(p).c_str(), w.curk, w.curn);
+    vrt::ev("{\"e\":\"%s\",\"k\":%d,\"n\":%d,\"p\":%s," CTXF "}", e, k, s.a, pj(p).c_str(), w.cur().k, w.cur().n);
     w.note(e, k, s.a, p);
   };
   auto gotError = [&](const char* e, const Stmt& s, const Payload& p) {
-    vrt::ev("{\"e\":\"%s\",\"k\":%d,\"n\":%d,\"p\":%s,\"re\":%d," CTXF "}", e, k, s.a, pj(p).c_str(), s.b ? 0 : 1, w.curk, w.curn);
+    vrt::ev("{\"e\":\"%s\",\"k\":%d,\"n\":%d,\"p\":%s,\"re\":%d," CTXF "}", e, k, s.a, pj(p).c_str(), s.b ? 0 : 1, w.cur().k, w.cur().n);
     w.note(e, k, s.a, p);
   };
   for (const Stmt& s : w.body[k]) {
@@ -300,7 +316,12 @@ inline unifex::task<Val> run(World& w, int k, FrameTag) {
       case 'L': locals.push_back(std::make_unique<Local>(&w, k, s.a)); break;
       case 'X':
         co_await unifex::at_coroutine_exit(cleanup_action, &w, k, s.a, FrameTag(&w, 100 + k));
-        vrt::ev("{\"e\":\"Reg\",\"k\":%d,\"a\":%d," CTXF "}", k, s.a, w.curk, w.curn);
+        vrt::ev("{\"e\":\"Reg\",\"k\":%d,\"a\":%d," CTXF "}", k, s.a, w.cur().k, w.cur().n);
+        w.note("Reg", k, s.a);
+        break;
+      case 'Y':
+        co_await unifex::at_coroutine_exit(cleanup_action_await, &w, k, s.a, s.b, FrameTag(&w, 100 + k));
+        vrt::ev("{\"e\":\"Reg\",\"k\":%d,\"a\":%d," CTXF "}", k, s.a, w.cur().k, w.cur().n);
         w.note("Reg", k, s.a);
         break;
       case 'A': case 'N': case 'M':
@@ -336,25 +357,25 @@ inline unifex::task<Val> run(World& w, int k, FrameTag) {
       case 'S':
         vrt::ev("{\"e\":\"Sched\",\"k\":%d,\"to\":%d}", k, s.a);
         co_await unifex::schedule(CtxSched{&w, s.a});
-        vrt::ev("{\"e\":\"Switched\",\"k\":%d,\"to\":%d," CTXF "}", k, s.a, w.curk, w.curn);
+        vrt::ev("{\"e\":\"Switched\",\"k\":%d,\"to\":%d," CTXF "}", k, s.a, w.cur().k, w.cur().n);
         w.note("Switched", k, s.a);
         break;
       case 'Q':
         vrt::ev("{\"e\":\"StopIf\",\"k\":%d}", k);
         co_await unifex::stop_if_requested();
-        vrt::ev("{\"e\":\"NotStopped\",\"k\":%d," CTXF "}", k, w.curk, w.curn);
+        vrt::ev("{\"e\":\"NotStopped\",\"k\":%d," CTXF "}", k, w.cur().k, w.cur().n);
         w.note("NotStopped", k, 0);
         break;
       case 'W':
         vrt::ev("{\"e\":\"Throw\",\"k\":%d,\"a\":%d}", k, s.a);
         throw Tagged{{s.a}};
       case 'R':
-        vrt::ev("{\"e\":\"Return\",\"k\":%d,\"a\":%d," CTXF "}", k, s.a, w.curk, w.curn);
+        vrt::ev("{\"e\":\"Return\",\"k\":%d,\"a\":%d," CTXF "}", k, s.a, w.cur().k, w.cur().n);
         w.note("Return", k, s.a);
         co_return Val(&w, Payload{s.a});
     }
   }
-  vrt::ev("{\"e\":\"Return\",\"k\":%d,\"a\":%d," CTXF "}", k, 900 + k, w.curk, w.curn);
+  vrt::ev("{\"e\":\"Return\",\"k\":%d,\"a\":%d," CTXF "}", k, 900 + k, w.cur().k, w.cur().n);
   w.note("Return", k, 900 + k);
   co_return Val(&w, Payload{900 + k});
 }
